@@ -325,44 +325,84 @@ def backup_sched_wal_clean_a8_d11(s0: int, tp: int, tc: int) -> bool:
     return _backup('check', s0, 7, 5, 3, 9, True, 8, tp, tc, 11, True, False)
 
 
-def backup_small_wal_keep(s0: int, tp: int, tc: int, td: int) -> bool:
+def backup_small_wal_keep_d9(s0: int, tp: int, tc: int) -> bool:
     """
     As backup_sched_*, with pack_size_target = 10: every object the concurrent client packs opens a NEW pack file (pack
     files that did not exist when the backup started).
-    pre: 1 <= s0 <= 70000 and 5 <= tp <= 11 and tp <= tc <= 11 and 5 <= td <= 11
+    pre: 1 <= s0 <= 70000 and 5 <= tp <= 11 and tp <= tc <= 11
     post: _
     """
-    return _backup('check', s0, 7, 5, 3, 9, True, 5, tp, tc, td, False, False, False, 10)
+    return _backup('check', s0, 7, 5, 3, 9, True, 5, tp, tc, 9, False, False, False, 10)
 
 
-def backup_small_wal_clean(s0: int, tp: int, tc: int, td: int) -> bool:
+def backup_small_wal_keep_d11(s0: int, tp: int, tc: int) -> bool:
     """
     As backup_sched_*, with pack_size_target = 10: every object the concurrent client packs opens a NEW pack file (pack
     files that did not exist when the backup started).
-    pre: 1 <= s0 <= 70000 and 5 <= tp <= 11 and tp <= tc <= 11 and 5 <= td <= 11
+    pre: 1 <= s0 <= 70000 and 5 <= tp <= 11 and tp <= tc <= 11
     post: _
     """
-    return _backup('check', s0, 7, 5, 3, 9, True, 5, tp, tc, td, True, False, False, 10)
+    return _backup('check', s0, 7, 5, 3, 9, True, 5, tp, tc, 11, False, False, False, 10)
 
 
-def backup_small_nowal_keep(s0: int, tp: int, tc: int, td: int) -> bool:
+def backup_small_wal_clean_d9(s0: int, tp: int, tc: int) -> bool:
     """
     As backup_sched_*, with pack_size_target = 10: every object the concurrent client packs opens a NEW pack file (pack
     files that did not exist when the backup started).
-    pre: 1 <= s0 <= 70000 and 5 <= tp <= 11 and tp <= tc <= 11 and 5 <= td <= 11
+    pre: 1 <= s0 <= 70000 and 5 <= tp <= 11 and tp <= tc <= 11
     post: _
     """
-    return _backup('check', s0, 7, 5, 3, 9, False, 5, tp, tc, td, False, False, False, 10)
+    return _backup('check', s0, 7, 5, 3, 9, True, 5, tp, tc, 9, True, False, False, 10)
 
 
-def backup_small_nowal_clean(s0: int, tp: int, tc: int, td: int) -> bool:
+def backup_small_wal_clean_d11(s0: int, tp: int, tc: int) -> bool:
     """
     As backup_sched_*, with pack_size_target = 10: every object the concurrent client packs opens a NEW pack file (pack
     files that did not exist when the backup started).
-    pre: 1 <= s0 <= 70000 and 5 <= tp <= 11 and tp <= tc <= 11 and 5 <= td <= 11
+    pre: 1 <= s0 <= 70000 and 5 <= tp <= 11 and tp <= tc <= 11
     post: _
     """
-    return _backup('check', s0, 7, 5, 3, 9, False, 5, tp, tc, td, True, False, False, 10)
+    return _backup('check', s0, 7, 5, 3, 9, True, 5, tp, tc, 11, True, False, False, 10)
+
+
+def backup_small_nowal_keep_d9(s0: int, tp: int, tc: int) -> bool:
+    """
+    As backup_sched_*, with pack_size_target = 10: every object the concurrent client packs opens a NEW pack file (pack
+    files that did not exist when the backup started).
+    pre: 1 <= s0 <= 70000 and 5 <= tp <= 11 and tp <= tc <= 11
+    post: _
+    """
+    return _backup('check', s0, 7, 5, 3, 9, False, 5, tp, tc, 9, False, False, False, 10)
+
+
+def backup_small_nowal_keep_d11(s0: int, tp: int, tc: int) -> bool:
+    """
+    As backup_sched_*, with pack_size_target = 10: every object the concurrent client packs opens a NEW pack file (pack
+    files that did not exist when the backup started).
+    pre: 1 <= s0 <= 70000 and 5 <= tp <= 11 and tp <= tc <= 11
+    post: _
+    """
+    return _backup('check', s0, 7, 5, 3, 9, False, 5, tp, tc, 11, False, False, False, 10)
+
+
+def backup_small_nowal_clean_d9(s0: int, tp: int, tc: int) -> bool:
+    """
+    As backup_sched_*, with pack_size_target = 10: every object the concurrent client packs opens a NEW pack file (pack
+    files that did not exist when the backup started).
+    pre: 1 <= s0 <= 70000 and 5 <= tp <= 11 and tp <= tc <= 11
+    post: _
+    """
+    return _backup('check', s0, 7, 5, 3, 9, False, 5, tp, tc, 9, True, False, False, 10)
+
+
+def backup_small_nowal_clean_d11(s0: int, tp: int, tc: int) -> bool:
+    """
+    As backup_sched_*, with pack_size_target = 10: every object the concurrent client packs opens a NEW pack file (pack
+    files that did not exist when the backup started).
+    pre: 1 <= s0 <= 70000 and 5 <= tp <= 11 and tp <= tc <= 11
+    post: _
+    """
+    return _backup('check', s0, 7, 5, 3, 9, False, 5, tp, tc, 11, True, False, False, 10)
 
 
 def backup_again(s0: int, wal: bool, tp: int, tc: int, cl: bool) -> bool:
